@@ -62,6 +62,13 @@ Example C03_example :
   infer' G e = Some (TB BFloat) /\ guard' G e = true /\ dyn (Rx [RB BInt; RB BFloat; RB BBool]) e = [RB BFloat; RB BFloat; RB BFloat].
 Proof. vm_compute. auto. Qed.
 
+(* a comprehension binds its variable to the element type of what it iterates: [w * 2.5 for w in v0 if w < v1] : list<float> *)
+Example C03_example_comprehension :
+  let G := Gx [TB BInt; TList (TB BInt)] in
+  let e := EComp 8 (EBin OMul (EVar 8) (ELit BFloat)) (EVar 1) (Some (ECmp (EVar 8) (EVar 0))) in
+  infer' G e = Some (TList (TB BFloat)) /\ guard' G e = true /\ dyn (Rx [RB BInt; RList [RB BInt]]) e = [RList [RB BFloat]].
+Proof. vm_compute. auto. Qed.
+
 Print Assumptions C03_soundness_partial.
 Print Assumptions C03_soundness_refuted.
 Print Assumptions C03_total_binop_partial.
